@@ -282,6 +282,19 @@ def switch_family():
                 s, r = sw.assess(full, args)
                 if not close(s, rg.get_score()):
                     fail("switch.assess: score not the executed branch's", idx=idx)
+                # update with an unchanged (possibly out-of-range) index: the executed branch is edited, weight = score change
+                name = ("u", "v", "w")[k]
+                try:
+                    new, w, rd, _ = sw.edit(KEY, tr, Update(C.kw(**{name: 0.75})), Diff.no_change(args))
+                except (ValueError, TypeError) as e:
+                    # a valid update (one address of the executed branch, unchanged arguments) must be applied, not rejected
+                    fail("switch.edit raises on an update that changes one branch's return value only", idx=idx, n=n,
+                         err=type(e).__name__, msg=str(e).splitlines()[0][:120])
+                    continue
+                ref_new, ref_w, _, _ = branches[k].edit(KEY, ref, Update(C.kw(**{name: 0.75})), Diff.no_change(args[1 + k]))
+                if not (close(new.get_score(), ref_new.get_score()) and close(w, ref_w) and close(w, new.get_score() - tr.get_score())):
+                    fail("switch.edit (unchanged index): score / weight are not those of the edited (clamped) branch", idx=idx, n=n,
+                         score=new.get_score(), want=ref_new.get_score(), w=w, want_w=ref_w)
     # or_else: the if-branch iff the flag is true - Python bools and arrays
     b_if, b_else = gen(lambda m: normal(m, 1.0) @ "a"), gen(lambda m: normal(m, 0.1) @ "b")
     oe = b_if.or_else(b_else)
@@ -1638,14 +1651,24 @@ FAMILIES = [
 ]
 
 
-def selftest():
+def selftest(names=None):
     """every battery must be SILENT on a tree where the properties hold (run by the thorough tier on the tree under check, with
-    the known-finding replays switched off): a battery that fails or raises there is a false alarm of the replay harness"""
+    the known-finding replays switched off): a battery that fails or raises there is a false alarm of the replay harness.
+    With `names` (obligation names of one property): only the batteries those obligations are replayed by."""
     global OB
     out = {}
     seen = []
+    wanted = None
+    if names is not None:
+        wanted = []
+        for ob in names:
+            for keys, fn in FAMILIES:
+                if any(k in ob for k in keys):
+                    if fn not in wanted:
+                        wanted.append(fn)
+                    break
     for keys, fn in FAMILIES:
-        if fn in seen:
+        if fn in seen or (wanted is not None and fn not in wanted):
             continue
         seen.append(fn)
         OB = "selftest"
@@ -1661,7 +1684,7 @@ def selftest():
 
 def main():
     if sys.argv[1] == "--selftest":
-        return selftest()
+        return selftest(json.load(open(sys.argv[2])) if len(sys.argv) > 2 else None)
     rec = json.load(open(sys.argv[1]))
     global OB
     ob = OB = rec["obligation"]
